@@ -68,7 +68,7 @@ func c05ModuleFuncs(p *Prog) []*ssa.Function {
 	var out []*ssa.Function
 	for path := range p.Pkgs {
 		if strings.HasPrefix(path, Mod) {
-			out = append(out, p.FuncsOfPkg(path)...)
+			out = append(out, c05FuncsOfPkg(p, path)...)
 		}
 	}
 	return out
@@ -120,8 +120,8 @@ func c05R1Verify(c *Ctx) {
 			vEdges = append(vEdges, t)
 		}
 	}
-	n0Edges, _ := c05NotPositiveEdges(fn, isPath(recv+"."+fBase+"*.N*"))
-	eofEdges, _ := c05EqEdges(fn, isPath(recv+"."+fErr+"*"), func(v ssa.Value) bool { return c05IsGlobalLoad(v, "io.EOF") })
+	n0Edges, _ := c05NotPositiveEdgesP(fn, isPath(recv+"."+fBase+"*.N*"), true)
+	eofEdges, _ := c05EqEdgesP(fn, isPath(recv+"."+fErr+"*"), func(v ssa.Value) bool { return c05IsGlobalLoad(v, "io.EOF") }, true)
 	// trailing-data probe: a read of vr.base.R (directly, through the ensureEOF-role helper, or through a method of vr that does so)
 	eEdges, probes, undec := c05ProbeEdges(c, R, fn, func(v ssa.Value) bool { return c05LoadPath(v) == recv+"."+fBase+"*.R*" }, fn.Params[0], 0)
 	if undec != "" {
@@ -229,22 +229,18 @@ func c05R1Verify(c *Ctx) {
 	}
 	// Verify itself records io.EOF in vr.err only after the same checks (a second Verify() trusts it)
 	okRec, badRec := true, ""
-	for _, u := range c05FieldUses([]*ssa.Function{fn}, c05VRType, fErr) {
-		st, isStore := u.Use.(*ssa.Store)
-		if !isStore {
-			continue
-		}
-		ps, ok := c05EnumPaths(fn, st)
+	for _, w := range c05FieldWrites(fn, c05VRType, fErr) {
+		ps, ok := c05EnumPaths(fn, w.At)
 		if !ok {
 			okRec, badRec = false, "path budget exceeded"
 		}
 		for _, p := range ps {
-			if !c05MayBeEOF(p.st.resolve(st.Val), 0) {
+			if !c05MayBeEOF(p.st.resolve(w.Val), 0) {
 				continue
 			}
 			for _, rq := range reqs {
 				if !rq.sat(p) {
-					okRec, badRec = false, rq.key+" missing on path "+p.String()+" at "+c.P.Pos(st.Pos())
+					okRec, badRec = false, rq.key+" missing on path "+p.String()+" at "+c.P.Pos(w.At.Pos())
 				}
 			}
 		}
@@ -260,13 +256,48 @@ func c05R1Verify(c *Ctx) {
 	// writers of vr.err: frozen inventory
 	allowed := map[string]bool{"(*~/content.VerifyReader).Read": true, "(*~/content.VerifyReader).Verify": true, "~/content.NewVerifyReader": true}
 	writers := map[string]token.Pos{}
+	writerFns := map[string]*ssa.Function{}
 	for _, u := range c05FieldUses(c05ModuleFuncs(c.P), c05VRType, fErr) {
 		if st, isStore := u.Use.(*ssa.Store); isStore {
 			writers[FnName(u.Fn)] = st.Pos()
+			writerFns[FnName(u.Fn)] = u.Fn
 		}
 	}
+	// a setter helper (stores nothing but its own argument) that only the confirmed writers call is part of them:
+	// the value it records is judged at their call sites (c05FieldWrites)
+	isSetterOf := func(h *ssa.Function) bool {
+		if h == nil || h.Object() == nil || h.Object().Exported() {
+			return false
+		}
+		if _, _, ok := c05Setter(h, c05VRType, fErr); !ok {
+			return false
+		}
+		n, good := 0, true
+		for _, g := range c05ModuleFuncs(c.P) {
+			AllInstrs(g, func(in ssa.Instruction) {
+				ci, isCall := in.(ssa.CallInstruction)
+				if isCall && StaticCallee(ci) == h {
+					n++
+					if _, plain := in.(*ssa.Call); !plain || !allowed[FnName(g)] {
+						good = false
+					}
+					return
+				}
+				for _, op := range in.Operands(nil) {
+					if *op == ssa.Value(h) {
+						good = false
+					}
+				}
+			})
+		}
+		return good && n > 0
+	}
 	for _, w := range c05SortedKeys(boolKeys(writers)) {
-		c.Exists(R, w+"|writes-vr.err", writers[w], allowed[w], ifelse(allowed[w], "confirmed writer of the sticky error", "unreviewed writer of VerifyReader.err: Verify trusts a recorded io.EOF as 'Size bytes were read'"))
+		okW, why := allowed[w], "confirmed writer of the sticky error"
+		if !okW && isSetterOf(writerFns[w]) {
+			okW, why = true, "setter that records only its argument and is called only by the confirmed writers (judged at their call sites)"
+		}
+		c.Exists(R, w+"|writes-vr.err", writers[w], okW, ifelse(okW, why, "unreviewed writer of VerifyReader.err: Verify trusts a recorded io.EOF as 'Size bytes were read'"))
 	}
 }
 
@@ -457,13 +488,9 @@ func c05R1Read(c *Ctx, R string) {
 	tn := FnName(fn)
 	recvSym := "P:" + fn.Params[0].Name()
 	stores := 0
-	for _, u := range c05FieldUses([]*ssa.Function{fn}, c05VRType, c05Cur.F("vr.err")) {
-		st, isStore := u.Use.(*ssa.Store)
-		if !isStore {
-			continue
-		}
+	for _, st := range c05FieldWrites(fn, c05VRType, c05Cur.F("vr.err")) {
 		stores++
-		ps, ok := c05EnumPaths(fn, st)
+		ps, ok := c05EnumPaths(fn, st.At)
 		bad := ""
 		if !ok {
 			bad = "path budget exceeded"
@@ -489,7 +516,7 @@ func c05R1Read(c *Ctx, R string) {
 			bad = "path " + p.String() + " records " + describe(v)
 			break
 		}
-		c.Check(R, tn+"|early-eof-not-recorded-as-eof", st.Pos(), bad == "",
+		c.Check(R, tn+"|early-eof-not-recorded-as-eof", st.At.Pos(), bad == "",
 			ifelse(bad == "", "an io.EOF from the limited reader is recorded only when N<=0 (otherwise converted)", "Read can record io.EOF in vr.err while bytes are still expected ("+bad+"); Verify treats a recorded io.EOF as 'Size bytes were read', so a short stream whose digest matches is accepted"))
 	}
 	if stores == 0 {
@@ -559,8 +586,10 @@ func c05R1Wiring(c *Ctx) {
 	}
 	tn := FnName(fn)
 	rdParam, descParam := fn.Params[0], fn.Params[1]
-	fieldStore := func(a ssa.Value, field string) ssa.Value {
-		var val ssa.Value
+	// the value field `field` of struct a holds at instruction `at`: the store into it that reaches `at`
+	// (literal form, or new(T) filled field by field, possibly on different branches); ambiguous -> nil, true
+	fieldStoreAt := func(a ssa.Value, field string, at ssa.Instruction) (val ssa.Value, ambiguous bool) {
+		n := 0
 		for _, r := range *a.Referrers() {
 			fa, ok := r.(*ssa.FieldAddr)
 			if !ok || c05FieldNameOf(fa.X.Type(), fa.Field) != field {
@@ -568,11 +597,38 @@ func c05R1Wiring(c *Ctx) {
 			}
 			for _, r2 := range *fa.Referrers() {
 				if s, ok := r2.(*ssa.Store); ok && s.Addr == ssa.Value(fa) {
+					if at != nil && !(s.Block() == at.Block() && instrIndex(s) < instrIndex(at)) && !reach(s.Block(), instrIndex(s)+1, at, nil) {
+						continue
+					}
 					val = s.Val
+					n++
 				}
 			}
 		}
-		return val
+		if n > 1 {
+			return nil, true
+		}
+		return val, false
+	}
+	var curRet ssa.Instruction
+	fieldStore := func(a ssa.Value, field string) ssa.Value {
+		v, amb := fieldStoreAt(a, field, curRet)
+		if amb {
+			return nil
+		}
+		return v
+	}
+	// a load of a field of the struct under construction denotes what was stored there
+	var built ssa.Value
+	fieldLoad := func(v ssa.Value) ssa.Value {
+		if ld, ok := strip(v).(*ssa.UnOp); ok && ld.Op == token.MUL {
+			if fa, ok := ld.X.(*ssa.FieldAddr); ok && built != nil && fa.X == built {
+				if sv, amb := fieldStoreAt(built, c05FieldNameOf(fa.X.Type(), fa.Field), ld); !amb && sv != nil {
+					return strip(sv)
+				}
+			}
+		}
+		return strip(v)
 	}
 	wired, poisoned := 0, 0
 	for _, a := range RetAtoms(fn, 0) {
@@ -581,6 +637,7 @@ func c05R1Wiring(c *Ctx) {
 			c.Undecided(R, tn+"|returned-value", a.Ret.Pos(), "NewVerifyReader returns "+describe(a.Val)+": not a fresh VerifyReader literal")
 			continue
 		}
+		curRet, built = a.Ret, al
 		base := fieldStore(al, c05Cur.F("vr.base"))
 		if base == nil {
 			e := fieldStore(al, c05Cur.F("vr.err"))
@@ -601,14 +658,14 @@ func c05R1Wiring(c *Ctx) {
 		c.Check(R, tn+"|limit-is-descriptor-size", a.Ret.Pos(), okN,
 			ifelse(okN, "LimitedReader.N is desc.Size", "the read limit is not the descriptor's Size"))
 		okV := false
-		if vc, ok := strip(verifier).(*ssa.Call); ok && CalleeName(vc) == "(digest.Digest).Verifier" && len(vc.Call.Args) == 1 {
+		if vc, ok := fieldLoad(verifier).(*ssa.Call); verifier != nil && ok && CalleeName(vc) == "(digest.Digest).Verifier" && len(vc.Call.Args) == 1 {
 			okV = c05FieldOfParam(vc.Call.Args[0], "Digest") == descParam
 		}
 		c.Check(R, tn+"|verifier-from-descriptor-digest", a.Ret.Pos(), okV,
 			ifelse(okV, "vr.verifier is desc.Digest.Verifier()", "the stored verifier is not derived from the descriptor's Digest"))
 		okT := false
-		if tc, ok := strip(r).(*ssa.Call); ok && CalleeName(tc) == "io.TeeReader" && len(tc.Call.Args) == 2 {
-			okT = strip(tc.Call.Args[0]) == ssa.Value(rdParam) && verifier != nil && strip(tc.Call.Args[1]) == strip(verifier)
+		if tc, ok := fieldLoad(r).(*ssa.Call); r != nil && ok && CalleeName(tc) == "io.TeeReader" && len(tc.Call.Args) == 2 {
+			okT = strip(tc.Call.Args[0]) == ssa.Value(rdParam) && verifier != nil && fieldLoad(tc.Call.Args[1]) == strip(verifier)
 		} else if r != nil {
 			c.Undecided(R, tn+"|hash-sees-every-byte-read", a.Ret.Pos(), "LimitedReader.R is "+describe(r)+": not io.TeeReader(r, verifier)")
 			continue
@@ -744,35 +801,60 @@ func c05R1Consumers(c *Ctx) {
 		desc := fa.Params[2]
 		ok := true
 		detail := "every non-nil result is ReadAll(rc, desc) with rc = fetcher.Fetch(ctx, desc)"
-		ras := CallsTo(fa, c05ReadAll)
-		good := map[ssa.Value]bool{}
-		for _, ra := range ras {
-			if c05ParamOf(ra.Common().Args[1]) != desc {
-				ok, detail = false, "ReadAll verifies against a descriptor other than FetchAll's parameter"
-			}
-			src := false
-			for _, r := range Roots(ra.Common().Args[0]) {
-				if e, isE := r.(*ssa.Extract); isE && e.Index == 0 {
-					if fc, isC := e.Tuple.(*ssa.Call); isC && CalleeName(fc) == "(~/content.Fetcher).Fetch" && c05ParamOf(fc.Call.Args[len(fc.Call.Args)-1]) == desc {
-						src = true
+		root := c05Root(fa)
+		nRA := 0
+		isDesc := func(v ssa.Value, e *c05Env) bool { return e.upParam(v) == desc }
+		// the bytes returned: ReadAll's result, in FetchAll itself or in a helper it returns the result of
+		var res func(v ssa.Value, e *c05Env, d int)
+		res = func(v ssa.Value, e *c05Env, d int) {
+			v, e = e.up(v)
+			for _, r := range Roots(v) {
+				r = strip(r)
+				if k, isK := r.(*ssa.Const); isK && k.Value == nil {
+					continue
+				}
+				if ex, isE := r.(*ssa.Extract); isE && ex.Index == 0 {
+					r = ex.Tuple
+				}
+				call, isCall := r.(*ssa.Call)
+				if !isCall {
+					ok, detail = false, "FetchAll returns bytes that did not come out of ReadAll: "+describe(r)
+					continue
+				}
+				if CalleeName(call) == c05ReadAll {
+					nRA++
+					if !isDesc(call.Call.Args[1], e) {
+						ok, detail = false, "ReadAll verifies against a descriptor other than FetchAll's parameter"
 					}
+					src := false
+					rd, rat := e.up(call.Call.Args[0])
+					for _, r2 := range Roots(rd) {
+						if e2, isE := strip(r2).(*ssa.Extract); isE && e2.Index == 0 {
+							if fc, isC := e2.Tuple.(*ssa.Call); isC && CalleeName(fc) == "(~/content.Fetcher).Fetch" && isDesc(fc.Call.Args[len(fc.Call.Args)-1], rat) {
+								src = true
+							}
+						}
+					}
+					if !src {
+						ok, detail = false, "the stream handed to ReadAll is not fetcher.Fetch(ctx, desc) of the same descriptor"
+					}
+					continue
+				}
+				h := c05Helper(call, e.Fn)
+				if h == nil || d >= 2 {
+					ok, detail = false, "FetchAll returns bytes that did not come out of ReadAll: "+describe(r)
+					continue
+				}
+				ch := &c05Env{Fn: h, Call: call, Parent: e}
+				for _, a := range RetAtoms(h, 0) {
+					res(a.Val, ch, d+1)
 				}
 			}
-			if !src {
-				ok, detail = false, "the stream handed to ReadAll is not fetcher.Fetch(ctx, desc) of the same descriptor"
-			}
-			good[ResultOf(ra, 0)] = true
-			good[ra.Value()] = true
 		}
 		for _, a := range RetAtoms(fa, 0) {
-			if k, isK := a.Val.(*ssa.Const); isK && k.Value == nil {
-				continue
-			}
-			if !good[a.Val] {
-				ok, detail = false, "FetchAll returns bytes that did not come out of ReadAll: "+describe(a.Val)
-			}
+			res(a.Val, root, 0)
 		}
-		if len(ras) == 0 {
+		if nRA == 0 {
 			ok, detail = false, "FetchAll no longer goes through ReadAll"
 		}
 		c.Check(R, FnName(fa)+"|returns-readall-of-fetched-stream", fa.Pos(), ok, detail)
@@ -928,7 +1010,7 @@ func c05Unspill(v ssa.Value) ssa.Value {
 // ocispec.ImageBlobsDir and a digest (role anchor for the unexported blobPath).
 func c05BlobPathFns(p *Prog) map[*ssa.Function]bool {
 	out := map[*ssa.Function]bool{}
-	for _, f := range p.FuncsOfPkg("content/oci") {
+	for _, f := range c05FuncsOfPkg(p, "content/oci") {
 		if f.Parent() != nil || f.Signature.Params().Len() != 1 {
 			continue
 		}
@@ -943,7 +1025,54 @@ func c05BlobPathFns(p *Prog) map[*ssa.Function]bool {
 			}
 		}
 	}
+	// wrappers: a one-parameter function whose every non-empty path result is the blob path of its
+	// parameter (a digest) or of its parameter's Digest (a descriptor): descriptorBlobPath(desc)
+	for round := 0; round < 2; round++ {
+		for _, f := range c05FuncsOfPkg(p, "content/oci") {
+			if out[f] || f.Parent() != nil || len(f.Params) != 1 || len(f.Blocks) == 0 || f.Signature.Results().Len() == 0 {
+				continue
+			}
+			if b, ok := f.Signature.Results().At(0).Type().Underlying().(*types.Basic); !ok || b.Kind() != types.String {
+				continue
+			}
+			good, n := true, 0
+			for _, a := range RetAtoms(f, 0) {
+				if s, isS := constString(a.Val); isS && s == "" {
+					continue
+				}
+				v := strip(a.Val)
+				if ex, isE := v.(*ssa.Extract); isE && ex.Index == 0 {
+					v = ex.Tuple
+				}
+				call, isCall := v.(*ssa.Call)
+				if !isCall || StaticCallee(call) == nil || !out[StaticCallee(call)] || c05BlobPathSubject(call) != f.Params[0] {
+					good = false
+					break
+				}
+				n++
+			}
+			if good && n > 0 {
+				out[f] = true
+			}
+		}
+	}
 	return out
+}
+
+// c05BlobPathSubject: the parameter (a descriptor, or a digest) of the calling
+// function whose digest the blob-path call is made for.
+func c05BlobPathSubject(call ssa.CallInstruction) *ssa.Parameter {
+	args := call.Common().Args
+	if len(args) != 1 {
+		return nil
+	}
+	if c05IsOCIDescriptor(args[0].Type()) {
+		return c05DescSource(args[0])
+	}
+	if p := c05FieldOfParam(args[0], "Digest"); p != nil {
+		return p
+	}
+	return c05ParamOf(args[0])
 }
 
 func c05R2OCI(c *Ctx) {
@@ -1006,7 +1135,7 @@ func c05R2OCI(c *Ctx) {
 			if r0 == nil || !derivesFromAny(dv, map[ssa.Value]bool{r0: true}, 0) {
 				continue
 			}
-			if p := c05FieldOfParam(call.Common().Args[0], "Digest"); p != nil {
+			if p := c05BlobPathSubject(call); p != nil && (c05IsOCIDescriptor(p.Type()) || c05FieldOfParam(call.Common().Args[0], "Digest") == p) {
 				if w, at := dat.up(p); at.isRoot() && w == ssa.Value(expected) {
 					okDst = true
 				}
@@ -1162,7 +1291,7 @@ func c05IngestRole(c *Ctx, R string, g *ssa.Function, desc, rd *ssa.Parameter, p
 			continue
 		}
 		why = ""
-		for _, src := range c05ArgSources(c.P.FuncsOfPkg("content/oci"), g, ct.Call.Args[0], 0) {
+		for _, src := range c05ArgSources(c05FuncsOfPkg(c.P, "content/oci"), g, ct.Call.Args[0], 0) {
 			if w := c05IngestDirOK(c05ModuleFuncs(c.P), src.V); w != "" {
 				why = w
 			}
@@ -1177,7 +1306,7 @@ func c05IngestRole(c *Ctx, R string, g *ssa.Function, desc, rd *ssa.Parameter, p
 
 func c05R2File(c *Ctx) {
 	const R = "C05.R2.publish-after-verify"
-	fns := c.P.FuncsOfPkg("content/file")
+	fns := c05FuncsOfPkg(c.P, "content/file")
 	// saveFile-role: writes digestToPath and copies through CopyBuffer
 	n := 0
 	for _, f := range fns {
@@ -1300,7 +1429,7 @@ func c05FreshFile(c *Ctx, v ssa.Value, depth int) (bool, string) {
 				}
 			}
 			ncall := 0
-			for _, g := range c.P.FuncsOfPkg(strings.TrimPrefix(fnPkgPath(f), Mod+"/")) {
+			for _, g := range c05FuncsOfPkg(c.P, strings.TrimPrefix(fnPkgPath(f), Mod+"/")) {
 				for _, call := range Calls(g, func(string) bool { return true }) {
 					if StaticCallee(call) != f || pi < 0 || pi >= len(call.Common().Args) {
 						continue
@@ -1339,7 +1468,7 @@ func c05ExistsWriters(c *Ctx, pushSide bool) []*ssa.Function {
 		}
 	}
 	var out []*ssa.Function
-	for _, f := range c.P.FuncsOfPkg("content/file") {
+	for _, f := range c05FuncsOfPkg(c.P, "content/file") {
 		writes := false
 		for _, u := range c05FieldUses([]*ssa.Function{f}, c05Cur.T("file.nameStatus"), c05Cur.F("file.status.exists")) {
 			if st, isStore := u.Use.(*ssa.Store); isStore {
@@ -1712,6 +1841,12 @@ func c05MapInventory(c *Ctx, R string, fns []*ssa.Function, typ, field string, w
 		if isCall && len(call.Common().Args) > 0 && call.Common().Args[0] == ssa.Value(u.Addr) {
 			name = CalleeName(call)
 		}
+		// a bound method value (`for k, v := range m.content.Range`): the method it is bound to
+		if mc, isMC := u.Use.(*ssa.MakeClosure); isMC && len(mc.Bindings) == 1 && mc.Bindings[0] == ssa.Value(u.Addr) {
+			if bf := mc.Fn.(*ssa.Function); strings.HasPrefix(bf.Synthetic, "bound method wrapper") {
+				name = fnFullName(bf)
+			}
+		}
 		switch {
 		case c05SyncMapReaders[name]:
 			k += name
@@ -1752,7 +1887,7 @@ func c05MapInventory(c *Ctx, R string, fns []*ssa.Function, typ, field string, w
 // c05AddProvenance: the digests Add() records are computed by the store
 // itself over the very file it records.
 func c05AddProvenance(c *Ctx, R string) {
-	for _, f := range c.P.FuncsOfPkg("content/file") {
+	for _, f := range c05FuncsOfPkg(c.P, "content/file") {
 		if len(c05CopyCalls(f)) > 0 {
 			continue // saveFile role, handled by R2
 		}
@@ -1886,7 +2021,7 @@ func c05ArgSources(pkgFns []*ssa.Function, f *ssa.Function, v ssa.Value, depth i
 }
 
 func c05BlobsInventory(c *Ctx, R string) {
-	fns := c.P.FuncsOfPkg("content/oci")
+	fns := c05FuncsOfPkg(c.P, "content/oci")
 	bp := c05BlobPathFns(c.P)
 	all := c05ModuleFuncs(c.P)
 	publications := 0
@@ -2272,6 +2407,9 @@ func c05ClosureErrRecorded(cl *ssa.Function, call ssa.CallInstruction, handle ss
 }
 
 var c05Mutants = []Mutant{
+	// round 4: flat `&&` guards and setter helpers are followed, not trusted
+	{Name: "verify-flat-guard-skips-length-check", File: "content/reader.go", Old: "\tif vr.err == nil {\n\t\tif vr.base.N > 0 {\n\t\t\treturn errEarlyVerify\n\t\t}\n\t} else if vr.err != io.EOF {\n\t\treturn vr.err\n\t}\n", New: "\tif vr.err == nil && vr.base.N > 0 && vr.base.N != 1 {\n\t\treturn errEarlyVerify\n\t} else if vr.err != nil && vr.err != io.EOF {\n\t\treturn vr.err\n\t}\n", Expect: "C05.R1.verify-sound|(*~/content.VerifyReader).Verify|nil-implies-length-check"},
+	{Name: "read-setter-helper-records-raw-eof", File: "content/reader.go", Old: "\t\tif err == io.EOF && vr.base.N > 0 {\n\t\t\terr = io.ErrUnexpectedEOF\n\t\t}\n\t\tvr.err = err\n\t}\n\treturn\n}\n", New: "\t\tvr.fail(err)\n\t\tif err == io.EOF && vr.base.N > 0 {\n\t\t\terr = io.ErrUnexpectedEOF\n\t\t}\n\t}\n\treturn\n}\n\nfunc (vr *VerifyReader) fail(err error) error {\n\tvr.err = err\n\treturn err\n}\n", Expect: "C05.R1.verify-sound|(*~/content.VerifyReader).Read|early-eof-not-recorded-as-eof"},
 	// R5
 	{Name: "memory-exists-by-digest-scan", File: "internal/cas/memory.go", Old: "\t_, exists := m.content.Load(key)\n\treturn exists, nil", New: "\tif _, exists := m.content.Load(key); exists {\n\t\treturn true, nil\n\t}\n\tfound := false\n\tm.content.Range(func(k, _ interface{}) bool {\n\t\tstored := k.(descriptor.Descriptor)\n\t\tfound = stored.Digest == key.Digest && stored.Size == key.Size\n\t\treturn !found\n\t})\n\treturn found, nil", Expect: "C05.R5.visibility-readers|(*~/internal/cas.Memory).Exists|"},
 	{Name: "memory-exists-by-digest-only-key", File: "internal/cas/memory.go", Old: "\t_, exists := m.content.Load(key)\n\treturn exists, nil", New: "\tif _, exists := m.content.Load(key); exists {\n\t\treturn true, nil\n\t}\n\t_, exists := m.content.Load(descriptor.Descriptor{Digest: key.Digest, Size: key.Size})\n\treturn exists, nil", Expect: "C05.R5.visibility-readers|(*~/internal/cas.Memory).Exists|"},
@@ -2459,7 +2597,7 @@ func c05R5(c *Ctx) {
 					p := args[len(args)-1]
 					okPath := false
 					for _, bc := range Calls(fn, func(string) bool { return true }) {
-						if g := StaticCallee(bc); g != nil && bp[g] && digestOfTarget(bc.Common().Args[0]) {
+						if g := StaticCallee(bc); g != nil && bp[g] && (digestOfTarget(bc.Common().Args[0]) || (c05IsOCIDescriptor(bc.Common().Args[0].Type()) && isTarget(bc.Common().Args[0]))) {
 							if r0 := ResultOf(bc, 0); r0 != nil && SameValue(p, r0) {
 								okPath = true
 							}
@@ -2675,7 +2813,7 @@ func c05R5NotFound(c *Ctx) {
 		return n == "io/fs.ErrNotExist" || n == "os.ErrNotExist"
 	}
 	for _, pkg := range []string{"content/oci", "content/file", "internal/cas", "content/memory"} {
-		for _, fn := range c.P.FuncsOfPkg(pkg) {
+		for _, fn := range c05FuncsOfPkg(c.P, pkg) {
 			if ErrResultIndex(fn.Signature) < 0 {
 				continue
 			}
